@@ -108,6 +108,92 @@ let run_zro buf =
   | Res.Err _ -> "outoffuel"
   | Res.Panic -> "panic"
 
+(* ---- C23 `render` suite: decode the serialized abstract lines + choices (checks/zfcoq.py: ser_lines), render them with the
+   extracted Coq renderer (Spec/ZfRenderS.v) and compare with the Python rendering; the oracle column is what
+   Coq's number_lines says the file denotes ------------------------------------------------------------------------------ *)
+module R = ZfRenderS
+
+let decode_lines (ser : string) : R.aline list =
+  let toks = Array.of_list (String.split_on_char ',' ser) in
+  let i = ref 0 in
+  let next () = let t = toks.(!i) in incr i; t in
+  let int () = int_of_string (next ()) in
+  let n () = n_of_int (int ()) in
+  let nat () = nat_of_int (int ()) in
+  let bl () = next () = "1" in
+  let by () = unhex (next ()) in
+  let lst f = let k = int () in Stdlib.List.init k (fun _ -> f ()) in
+  let esc () = match int () with 0 -> R.ERaw | 1 -> R.EChar | _ -> R.EDec in
+  let escs () = lst esc in
+  let sitem () = match int () with
+    | 0 -> R.SOpen | 1 -> R.SClose | 2 -> R.SNl (bl ())
+    | _ -> let t = by () in let c = bl () in R.SComment (t, c) in
+  let sep () =
+    let gs = lst (fun () -> let b = by () in let it = sitem () in (b, it)) in
+    let tl = by () in { R.s_groups = gs; R.s_tail = tl } in
+  let term () = match int () with
+    | 0 -> R.TNl (bl ()) | 1 -> let t = by () in let c = bl () in R.TComment (t, c)
+    | 2 -> R.TEof | _ -> R.TCommentEof (by ()) in
+  let eol () = let s = sep () in let t = term () in { R.e_sep = s; R.e_term = t } in
+  let labels () = lst by in
+  let nch () = match int () with
+    | 0 -> R.NAt | 1 -> R.NAbs (lst escs)
+    | _ -> let k = nat () in let e = lst escs in R.NRel (k, e) in
+  let ich () = let p = bl () in let z = nat () in { R.i_plus = p; R.i_zeros = z } in
+  let sym () = match int () with
+    | 0 -> R.SymMnemonic (lst bl)
+    | _ -> let l = lst bl in let ic = ich () in R.SymNumeric (l, ic) in
+  let sch () = match int () with 0 -> R.SQuoted (escs ()) | _ -> R.SUnquoted (escs ()) in
+  let fch () = match int () with
+    | 0 -> R.CName (nch ()) | 1 -> R.CInt (ich ())
+    | 2 -> let d = lst nat in let u = lst bl in R.CIp6 { R.g_drop = d; R.g_upper = u }
+    | 3 -> R.CStr (sch ()) | _ -> R.CPlain in
+  let fval () = match int () with
+    | 0 -> R.VName (labels ()) | 1 -> R.VU16 (n ()) | 2 -> R.VU32 (n ()) | 3 -> R.VOct (n ())
+    | 4 -> let a = n () in let b = n () in let c = n () in let d = n () in R.VIp4 (a, b, c, d)
+    | 5 -> R.VIp6 (lst n) | _ -> R.VStr (by ()) in
+  let tcc () = match int () with
+    | 0 -> R.TcNone
+    | 1 -> let raw = n () in let ic = ich () in let s = sep () in R.TcT (raw, ic, s)
+    | 2 -> let sc = sym () in let s = sep () in R.TcC (sc, s)
+    | 3 -> let raw = n () in let ic = ich () in let s1 = sep () in let sc = sym () in let s2 = sep () in R.TcTC (raw, ic, s1, sc, s2)
+    | _ -> let sc = sym () in let s1 = sep () in let raw = n () in let ic = ich () in let s2 = sep () in R.TcCT (sc, s1, raw, ic, s2) in
+  let dch () = match int () with
+    | 0 -> R.DFields (lst (fun () -> let s = sep () in let f = fch () in (s, f)))
+    | _ -> let s0 = sep () in let s1 = sep () in let ic = ich () in
+      let ws = lst (fun () -> let so = (match int () with 0 -> None | _ -> Some (sep ())) in
+                              let u1 = bl () in let u2 = bl () in ((so, u1), u2)) in
+      R.DGeneric (s0, s1, ic, ws) in
+  let rdata () = match int () with 0 -> R.AFields (lst fval) | _ -> R.AGeneric (by ()) in
+  let line () = match int () with
+    | 0 ->
+      let lead = sep () in
+      let owner = (match int () with 0 -> None | _ -> let nc = nch () in let s = sep () in Some (nc, s)) in
+      let tc = tcc () in let ty = sym () in let rd = dch () in let e = eol () in
+      let o = labels () in let ttl = n () in let c = n () in let t = n () in let d = rdata () in
+      R.LRecord ({ R.rc_lead = lead; R.rc_owner = owner; R.rc_tc = tc; R.rc_type = ty; R.rc_rdata = rd; R.rc_end = e },
+                 { R.a_owner = o; R.a_ttl = ttl; R.a_class = c; R.a_type = t; R.a_rdata = d })
+    | 1 -> R.LBlank (eol ())
+    | 2 -> let l = lst bl in let s = sep () in let nc = nch () in let ls = labels () in let e = eol () in R.LOrigin (l, s, nc, ls, e)
+    | _ -> let l = lst bl in let s = sep () in let ic = ich () in let raw = n () in let e = eol () in R.LTtl (l, s, ic, raw, e) in
+  lst line
+
+let show_denoted (items : (BinNums.coq_N * R.arec) list) =
+  let one (ln, r) =
+    Printf.sprintf "R%d o=%s/%d t=%d c=%d y=%d d=%s v=ok" (int_of_n ln) (hex (NameWireS.wire_of r.R.a_owner))
+      (Stdlib.List.length r.R.a_owner + 1) (int_of_n r.R.a_ttl) (int_of_n r.R.a_class) (int_of_n r.R.a_type)
+      (hex (R.rdata_wire r.R.a_rdata)) in
+  String.concat " ; " (Stdlib.List.map one items @ ["after=0"])
+
+let run_zrc file expected ser =
+  let lines = decode_lines ser in
+  let coq_text = R.render lines in
+  let denoted = show_denoted (R.number_lines lines) in
+  if not (R.file_ok R.sctx0 lines) then "coq-file_ok=false | " ^ denoted
+  else if coq_text <> file then "coq-render=" ^ hex coq_text ^ " | " ^ denoted
+  else if denoted <> expected then "coq-denotes-differently | " ^ denoted
+  else run_zf file ^ " | " ^ denoted
+
 let show_uint max buf =
   if not (ZfStd.utf8_valid buf) then "badutf8"
   else match ZfStd.parse_uint max buf with
@@ -129,6 +215,7 @@ let string_of_hex h =
 
 let () = run_lines (fun f ->
   match f with
+  | ["zrc"; _; hx; expected; ser] -> run_zrc (unhex hx) (string_of_hex expected) ser
   | ["zfx"; _; hx; expected] ->
     (* C23: the expected parse (computed by the generator from the abstract records) is the oracle *)
     run_zf (unhex hx) ^ " | " ^ string_of_hex expected
